@@ -91,6 +91,20 @@ func (r *VerifRig) VerifVerifySortition(pub *ecdsa.PublicKey, data *SortitionDat
 	return r.S.verifySortition(pub, data, lb)
 }
 
+// VerifIsProposer / VerifIsValidator / VerifClearStepViews: the node's own credential issuer
+// (SortitionManager) as the proposal path (Prepare / isProposer) and the voter use it.
+func (r *VerifRig) VerifIsProposer(round uint64, roundIndex uint32) (bool, *StepView) {
+	return r.S.sortitionMgr.isProposer(new(big.Int).SetUint64(round), roundIndex)
+}
+
+func (r *VerifRig) VerifIsValidator(round uint64, roundIndex uint32, step uint32, lb params.LookBackType) (bool, *StepView) {
+	return r.S.sortitionMgr.isValidator(new(big.Int).SetUint64(round), roundIndex, step, lb)
+}
+
+func (r *VerifRig) VerifClearStepViews(round uint64) {
+	r.S.sortitionMgr.ClearStepView(new(big.Int).SetUint64(round))
+}
+
 // VerifUpdateBlockHeader is what Server.eventLoop does with an UpdateExistedHeaderEvent.
 func (r *VerifRig) VerifUpdateBlockHeader(ev UpdateExistedHeaderEvent) { r.S.updateBlockHeader(ev) }
 
